@@ -28,7 +28,8 @@ ASSUMPTIONS = [
     "complete for 'least-squares minimiser', also over Q); LAPACK's answer must exceed the exact minimum by <= 1e-16*scale^2 "
     "and resids must equal it (1e-6 relative); rotations unit",
     "minimal bounding ball: NOTHING is assumed about miniball. scipy.optimize.nnls (called by _is_minimal_bounding_ball) "
-    "is an input of the model with the contract weights >= 0 and residual = |a w - b| (checked per call, exact over Q, 1e-9); "
+    "is an input of the model with the contract weights >= 0 and residual = |a w - b| (checked per call, exact over Q, 1e-9) "
+    "and optimality certified by approximate KKT conditions (g >= -1e-9, sum w g <= 1e-9, exact over Q; Lean nnls_kkt_sound); "
     "decisions of the acceptance test closer than 1e-11 relative to one of its thresholds are not compared. A returned ball "
     "is judged by exact (Q) numbers only: max |v - c|^2 <= r^2 (1+1e-6), and r^2 <= (1+1e-6) * the squared radius of an "
     "independently computed containing ball; 'minimal' is counted as confirmed only inside the exact bracket "
@@ -685,8 +686,16 @@ def check_minimal_bounding(ctx, case, cls, attr, p, verts, Ls, d, fail_first, se
     # ---- C
     natural_fail = n_fail - min(fail_first, len(rec.mb))
     if impl[0] == "exc":
-        if impl[1] == "RuntimeError" and n_fail >= 10:
-            if fail_first < 10:
+        if impl[1] == "RuntimeError" and len(rec.mb) >= 10:
+            if fail_first == 0:
+                # every attempt failed on its own (LinAlgError inside miniball, or an answer rejected by the acceptance
+                # test): a VALID shape has a minimal bounding ball, the getter gives up instead of returning it
+                n_rej = sum(1 for ok, _, _ in rec.mb if ok)
+                ctx.count("miniball:gave-up-on-valid-shape")
+                ctx.fail(sig0 + ":raises-for-valid-shape",
+                         "RuntimeError although the shape is valid: all 10 attempts failed (%d LinAlgError in miniball, %d "
+                         "answers rejected)" % (n_fail, n_rej), case, [impl[2], n_fail, n_rej])
+            elif fail_first < 10:
                 ctx.contract_failures.append({"contract": "miniball succeeds within 10 attempts", "where": sig0,
                                               "natural_failures": natural_fail})
             return
@@ -747,6 +756,14 @@ def check_acceptance(ctx, case, sig0, S, res, calls, accepted):
         exact = float(ctx.driver.Q("s.nnlsresid", L(list(bd)), c, float(r2), L([float(t) for t in w]))[0])
         ok = bool(np.all(w >= 0)) and resid >= 0 and abs(resid - np.sqrt(max(exact, 0.0))) <= 1e-9
         ctx.count("nnls:contract:" + ("ok" if ok else "FAILED"))
+        # optimality of nnls as a certificate: approximate KKT conditions, exact over Q (Lean: nnls_kkt_sound)
+        kq = ctx.driver.Q("s.nnlskkt", L(list(bd)), c, float(r2), L([float(t) for t in w]))
+        delta, kappa = max(0.0, -float(kq[0])), max(0.0, float(kq[1]))
+        kkt = delta <= 1e-9 and kappa <= 1e-9
+        ctx.count("nnls:kkt-certificate:" + ("ok" if kkt else "FAILED"))
+        if not kkt:
+            ctx.contract_failures.append({"contract": "nnls optimal (KKT: g >= -delta, sum w g <= kappa)", "where": sig0,
+                                          "delta": delta, "kappa": kappa})
         if not ok:
             ctx.contract_failures.append({"contract": "nnls: weights >= 0, residual = |a w - b|", "where": sig0,
                                           "residual": resid, "exact |a w - b|": float(np.sqrt(max(exact, 0.0))),
@@ -1374,10 +1391,18 @@ def make_sweep_case(rng, ctx, nseeds):
     """one cospherical vertex set (where Welzl's recursion inside `miniball` meets degenerate supports) in a random
     rigid placement, evaluated under many states of Python's global `random` (which `miniball` draws its pivots from)."""
     import rowan
-    k = int(rng.integers(10))
+    k = int(rng.integers(12))
     n = int(rng.integers(3, 9))
     shape = "polyhedron"
-    if k >= 8:
+    if k >= 10:
+        # many cospherical vertices: every attempt of miniball fails with probability ~0.3-0.5 (LinAlgError)
+        m = int(rng.integers(25, 61))
+        if k == 10:
+            name, v = "prism-large", _regular_prism(m, 2 * np.sin(np.pi / m))
+        else:
+            shape, name = "polygon", "ngon-large"
+            v = np.c_[gen.ngon(m), np.zeros(m)]
+    elif k >= 8:
         # generic (non-cospherical) prism over a polygon inscribed in an ellipse: miniball was seen to return
         # containing but NOT minimal balls here (about 1 call in 1500)
         m = int(rng.integers(5, 13))
@@ -1458,6 +1483,8 @@ def eval_sweep(ctx, case):
             u = float(np.max(np.sum((verts - res[2]) ** 2, axis=1)))
             if u <= r2 * (1 + MB_REL / 2) and r2 <= opt[1] * (1 + MB_REL / 2):
                 continue
+        if res[0] != "ok":
+            ctx.count("sweep:%s:%s" % (res[1], case["info"]["kind"].split(":", 1)[1]))
         # anything else: the full evaluation of this (vertices, seed) as a case of its own (replayable)
         hits += 1
         if hits > 3:
@@ -1572,6 +1599,22 @@ def witnesses():
     out.append({"family": "polyhedron", "vertices": PRISM3_ROT,
                 "faces": [[0, 2, 1], [3, 4, 5], [0, 3, 5, 2], [1, 2, 5, 4], [0, 1, 4, 3]],
                 "info": {"kind": "witness:miniball-unverified-prism-general-class"}, "seed": 14})
+    # KNOWN FINDING (not repaired): retry exhaustion on valid shapes. On cospherical sets with many vertices miniball raises
+    # LinAlgError on roughly every second attempt whatever the rotation, so 10 attempts are not enough about once in 1e3
+    # calls; deterministic witnesses: the uniform 41-gon prism (82 vertices) and the regular 41-gon, with the seeds below
+    try:
+        from coxeter.families import RegularNGonFamily, UniformPrismFamily
+        pr = UniformPrismFamily.get_shape(n=41)
+        pv = np.array(pr.vertices, dtype=float).tolist()
+        out.append({"family": "polyhedron", "vertices": pv, "seed": 923,
+                    "info": {"kind": "witness:retry-exhaustion-prism41"}})
+        out.append({"family": "polyhedron", "vertices": pv, "faces": [[int(t) for t in f] for f in pr.faces], "seed": 923,
+                    "info": {"kind": "witness:retry-exhaustion-prism41-general-class"}})
+        ng = np.array(RegularNGonFamily.get_shape(n=41).vertices, dtype=float).tolist()
+        out.append({"family": "polygon", "vertices": ng, "normal": None, "cls": "Polygon", "seed": 967,
+                    "info": {"kind": "witness:retry-exhaustion-41gon"}})
+    except Exception:  # noqa: BLE001
+        pass
     return out
 
 
